@@ -221,11 +221,14 @@ def build(tier):
     from props import kernels
     groups += kernels.bkldlt_groups(tier, report)
     meta = {"level": "proof", "trusted_base": ["cbmc 6.11.0 dfcc", "cadical", "extractor"],
-            "assumptions": ["pivoting / elimination kernels satisfy the contracts stubbed here (their raw-pointer bodies are bounded stand-ins, listed separately)",
+            "assumptions": ["permutate_mat / gaussian_elimination_1x1 / _2x2 / copy_data satisfy the contracts stubbed in bk.compute; each of those contracts is checked on the real body only as a BOUNDED stand-in "
+                            "(bkldlt.kernels.*, bkldlt.ge*, bkldlt.copy_data.* at concrete n, listed separately and never counted as proved)",
+                            "in the bounded elimination kernels mapped-vector updates lose their values (extent checked against the addressed column) and solve_left_2x2 is not under contract; "
+                            "the two products of the 2x2 determinant test are an uninterpreted function on both sides; conj() in copy_data is an uninterpreted function (generic scalar), real()/conj() are the identity in the other kernels (real instantiation)",
                             "packed storage is seen through m_colptr[j] as column segments of length n - j (layout by compute_pointer is a bounded check)",
                             "floating-point values are not modelled: NumericalIssue may be reported at any pivot (nondeterministic `== 0` tests)",
                             "Skolem instantiation meta-rule (INSTANTIATE_WF)", "n <= 1024 only to keep n(n+1)/2 inside machine integers"],
-            "not_covered": ["residual bound c*n*eps*(||A - sigma I|| ||x|| + ||b||)", "agreement of lower/upper results to rounding"],
+            "not_covered": ["residual bound c*n*eps*(||A - sigma I|| ||x|| + ||b||)", "agreement of lower/upper results to rounding beyond copy_data (the two triangles of a Hermitian matrix give the same packed entries: bounded check)"],
             "extraction": report, "explanation": "status / permutation protocol and index safety"}
     return groups, meta
 
